@@ -86,9 +86,9 @@ def program_strategy(draw, max_ops=30, removal_heavy=False):
         (1, st.fixed_dictionaries({"op": st.just("copy_group"), "group": idx, "ws": st.sampled_from([0, 1])})),
         (1, st.fixed_dictionaries({"op": st.just("push"), "group": idx, "pg": idx, "name": st.sampled_from(["p1", "p2"]), "vals": vals})),
         (1, st.fixed_dictionaries({"op": st.just("group"), "name": st.sampled_from(["G0", "G0", "H"])})),
-        (1, st.just({"op": "plain"})),
-        (1, st.fixed_dictionaries({"op": st.just("plain_remove"), "who": idx})),
-        (3, st.fixed_dictionaries({"op": st.just("reopen"), "same": st.sampled_from([False, False, True])})),
+        (2, st.just({"op": "plain"})),
+        (2, st.fixed_dictionaries({"op": st.just("plain_remove"), "who": idx})),
+        (3, st.fixed_dictionaries({"op": st.just("reopen"), "same": st.sampled_from([False, True])})),
     ]
     if removal_heavy:  # C05: removals of data / holes / tables and refused removals of protected location data
         weighted += [
